@@ -188,6 +188,42 @@ func main() {
 			}
 			emit(o, rp.Case, runCase(node, hp, rp.Case), "corpus:"+fn)
 		}
+	case "meta":
+		var cases []MCase
+		if *replay != "" {
+			b, err := os.ReadFile(*replay)
+			if err != nil {
+				panic(err)
+			}
+			var rp struct {
+				Case MCase `json:"case"`
+			}
+			if err := json.Unmarshal(b, &rp); err != nil {
+				panic(err)
+			}
+			cases = append(cases, rp.Case)
+		} else {
+			cases = append(cases, metaCorpus()...)
+			r := util.Rng(12)
+			for i := 0; i < *n; i++ {
+				cases = append(cases, genMetaCase(r))
+			}
+		}
+		for _, c := range cases {
+			res, _ := runMetaCase(node, c)
+			idx := o.Add(coqMetaCase(c, res), c)
+			o.Stats["steps"] += len(res.Full)
+			o.Stats[fmt.Sprintf("reason:%d", res.Reason)]++
+			if res.Terms > 0 {
+				o.Stats["terminated"]++
+			}
+			if res.MaxOpen > 1 {
+				o.Stats["overlap-observed"]++
+			}
+			if res.Stalled != "" {
+				o.Notes = append(o.Notes, fmt.Sprintf("case %d stalled: %s", idx, res.Stalled))
+			}
+		}
 	case "dfs":
 		// stateless exploration with iterative preemption bounding (CHESS style): re-run with a
 		// prefix, complete without preemption (keep the running thread, else lowest), branch on every
